@@ -183,6 +183,29 @@ inline uint64_t max_row_gap_units(const Model& m) {
 }
 
 
+// ---------------------------------------------------------------- rare inputs: coupon column >= 31
+// uint64 keys mined offline (default seed 9001) whose second hash word has >= 31 leading zeros (about one key
+// in 2^31).  Each is re-verified here with the reference hash; keys that fail are dropped (and counted by the
+// monitors).  Columns >= 32 are where a 32-bit shift or mask in the library would go wrong.
+struct RareKey { uint64_t x; unsigned col; };
+inline const std::vector<RareKey>& rare_keys() {
+  static std::vector<RareKey> keys;
+  static bool built = false;
+  if (!built) {
+    built = true;
+    static const uint64_t cand[] = {5366044298ULL, 27328365571ULL, 11173371160ULL, 16346886804ULL, 20844166222ULL, 15216346685ULL,
+                                    8253553449ULL, 5411159528ULL, 8976502966ULL, 10935192973ULL, 8971523326ULL};
+    for (uint64_t x : cand) {
+      const unsigned col = std::min(63u, clz64(ref_hash_u64(x, 9001).h2));
+      if (col >= 31) keys.push_back(RareKey{x, col});
+    }
+  }
+  return keys;
+}
+inline Val rare_val(const RareKey& k) { Val v; v.kind = V_U64; v.u = k.x; return v; }
+// number of coupons of the model in columns >= 32
+inline uint64_t hi_col_coupons(const Model& m) { uint64_t n = 0; m.for_each_row([&](uint32_t, uint64_t bits) { n += popcnt64(bits >> 32); }); return n; }
+
 // (lg_k, C) -> estimate bits + matrix hash of the first merged sketch seen with that (lg_k, C) in this process
 struct MergedSeen { uint64_t est_bits; uint64_t mat_hash; };
 inline std::map<std::pair<int, uint64_t>, MergedSeen>& merged_registry() { static std::map<std::pair<int, uint64_t>, MergedSeen> m; return m; }
